@@ -363,6 +363,24 @@ pub fn salt_variants(c: &mut Ctx, b: &Budget) {
             let r = guarded(|| { let mut r = make_fake_random_number_generator(); e.add_salt_in_range_using(&(n..=n + 20), &mut r).is_ok() });
             c.check("short-range-refused", r == Ok(false), "short-salt-accepted", || format!("add_salt_in_range_using({}..={})", n, n + 20));
         }
+        // envelopes of exactly chosen serialized sizes, at and next to every step of the proportional range (161, 162, 180, 181, 1001 ...):
+        // the range is computed from the size of the tagged encoding, to the byte
+        if i % 4 == 0 {
+            for target in [159usize, 160, 161, 162, 163, 179, 180, 181, 182, 199, 200, 201, 1000, 1001, 1002, 1019, 1020, 1021] {
+                let mut n = target.saturating_sub(8);
+                let mut built = None;
+                for _ in 0..12 { let cand = Envelope::new(CBOR::to_byte_string(vec![0x41u8; n])); let sz = bytes_of(&cand).len(); if sz == target { built = Some(cand); break; } if sz > target { n -= sz - target; } else { n += target - sz; } }
+                if let Some(x) = built {
+                    agree!(c, "add_salt_using", { let mut r = make_fake_random_number_generator(); x.add_salt_using(&mut r) }, { let mut r = make_fake_random_number_generator(); x.add_salt_instance(Salt::new_for_size_using(target, &mut r)) }, format!("size {}", target));
+                    // the smallest and largest salts a sequence of generator states yields stay inside the documented range
+                    let lo = 8usize.max((target as f64 * 0.05).ceil() as usize); let hi = (lo + 8).max((target as f64 * 0.25).ceil() as usize);
+                    let mut r = make_fake_random_number_generator();
+                    for _ in 0..60 { let sx = x.add_salt_using(&mut r); let len = sx.assertions_with_predicate(known_values::SALT).first().and_then(|a| a.as_object()).and_then(|o| o.extract_subject::<Salt>().ok()).map(|s| s.len());
+                        c.check("salt-length", matches!(len, Some(n) if lo <= n && n <= hi), "salt-length", || format!("an envelope of {} bytes got a salt of {:?} bytes, outside the documented {}..={}", target, len, lo, hi)); }
+                }
+            }
+            c.count("branch:salt-size-steps");
+        }
         // a generator that is advanced gives another salt: consecutive draws from one generator differ
         let two = guarded(|| { let mut r = make_fake_random_number_generator(); (e.add_salt_using(&mut r), e.add_salt_using(&mut r)) });
         if let Ok((a, b2)) = two { c.check("independent-salts-differ", a.digest() != b2.digest(), "salts-equal", || "two draws from one generator gave one salt".into()); if i % 5 == 0 { import(c, &a); } }
